@@ -15,6 +15,16 @@ ALPHA = ["int", "T", "x", "typedef", "struct", "enum", "{", "}", "(", ")", "[", 
 PREFIXES = ["", "typedef int T; ", "void f(void){ ", "struct S { ", "int x = ", "typedef int T; void f(void){ ", "int f("]
 
 
+LITERALS = ["0", "7", "08", "0x4", "0X1f", "0b11", "0B0", "017", "1u", "2UL", "3ll", "4LLU", "5lu", "0x", "1.5", "1e3", ".5f", "0x1p3", "1.0L", "'a'", "'ab'", "L'a'",
+            "u'a'", "U'a'", "u8'a'", "'\\n'", "'\\x41'", "''", "\"s\"", "L\"s\"", "-1", "(2)", "1+1", "sizeof(int)", "x", "K", "1 ? 2 : 3", "(int)1", "1uu", "1lul", "0x1g", "09", "1e", "'",
+            "1.5e+3", "0777777777777777777777", "99999999999999999999999999", "0b", "0b2", "1_000", "1'000", "$", "a$b", "\\", "??"]
+LIT_CONTEXTS = ["struct S { unsigned f : @; };", "struct S { int : @; };", "struct S { unsigned f : @, g : @; } s;", "int a[@];", "int a[@][@];", "void f(int a[static @]);",
+                "enum E { K = @ };", "enum E { A, B = @, C };", "void f(void){ switch (x) { case @: break; } }", "int x = @;", "int a[] = { [@] = 1 };", "int a[] = { [@ ... @] = 1 };",
+                "_Static_assert(@, \"m\");", "_Alignas(@) int x;", "int x = sizeof(char[@]);", "void f(void){ return @; }", "void f(void){ g(@, @); }", "int x = (int[@]){0}[0];",
+                "void f(void){ if (@) ; while (@) ; for (;@;) ; }", "int x = @ + @;", "int x = - @;", "int x = a[@];", "char *s = @;", "#line @\nint x;", "# @ \"f.c\"\nint x;", "#pragma @\nint x;",
+                "void f(void){ x = _Alignof(int[@]); }", "void f(void){ x = offsetof(struct S, m[@]); }", "struct S { _Alignas(@) int m; };", "int f(int a[@]);", "int (*p)[@];", "typedef int T[@];"]
+
+
 def classify(outcome, filename="f.c", text=""):
     """None if the outcome is allowed by the property, else a description"""
     if outcome.startswith("OK") or outcome == "R":
@@ -76,6 +86,10 @@ def run(ctx, b, broken):
         for n in range(1, N + 1):
             for t in itertools.product(ALPHA, repeat=n):
                 one(pre + " ".join(t), "exhaustive-short", n >= 2)
+    # every literal spelling in every position where the grammar takes a constant expression
+    for ctxt in LIT_CONTEXTS:
+        for lit in LITERALS:
+            one(ctxt.replace("@", lit), "literal-contexts", True)
     nprog = 300 if ctx.tier == "quick" else 4000
     for g, toks, exp in gen_cases(ctx, nprog):
         sp = [t[0] + ("\n" if t[2] == "pragma" else "") for t in toks]
